@@ -3912,12 +3912,12 @@ func (data *Data) UpdateShardDownSampleInfo(ident *ShardIdentifier) error {
 	}
 	shardGroups := rp.ShardGroups
 	for i := range shardGroups {
-		if inShardGroup(&shardGroups[i], ident.ShardID) {
-			if int64(ident.DownSampleLevel) > shardGroups[i].Shard(ident.ShardID).DownSampleLevel {
-				shardGroups[i].Shard(ident.ShardID).DownSampleLevel = int64(ident.DownSampleLevel)
+		if sh := shardGroups[i].Shard(ident.ShardID); sh != nil {
+			if int64(ident.DownSampleLevel) > sh.DownSampleLevel {
+				sh.DownSampleLevel = int64(ident.DownSampleLevel)
 			}
-			shardGroups[i].Shard(ident.ShardID).ReadOnly = ident.ReadOnly
-			shardGroups[i].Shard(ident.ShardID).DownSampleID = ident.DownSampleID
+			sh.ReadOnly = ident.ReadOnly
+			sh.DownSampleID = ident.DownSampleID
 		}
 	}
 	return nil
